@@ -233,19 +233,18 @@ int main(int argc, char** argv) {
   run_class(cgsys_adapter(), depth + 1);
   run_class(mip_adapter(), depth + 1);
   run_class(pip_adapter(), depth);
-#elif VF_GROUP == 7
+#elif VF_GROUP == 7      // single rows and the grid generator system
   run_class(constraint_adapter(), depth);
   run_class(generator_adapter(), depth);
   run_class(grid_generator_adapter(), depth);
   run_class(congruence_adapter(), depth);
   run_class(ggsys_adapter(), depth + 1);
-#elif VF_GROUP == 8
+#elif VF_GROUP == 8      // low-level rows and matrices
   run_class(dense_row_adapter(), depth + 1);
   run_class(sparse_row_adapter(), depth + 1);
   run_class(matrix_adapter<PPL::Dense_Row>("Matrix<Dense_Row>"), depth + 1);
   run_class(matrix_adapter<PPL::Sparse_Row>("Matrix<Sparse_Row>"), depth + 1);
   run_class(bit_matrix_adapter(), depth + 1);
-#elif VF_GROUP == 9
   { typedef PPL::Checked_Number<mpq_class, PPL::WRD_Extended_Number_Policy> NQ; typedef PPL::Checked_Number<mpz_class, PPL::WRD_Extended_Number_Policy> NZ;
     typedef PPL::Checked_Number<double, PPL::WRD_Extended_Number_Policy> ND; typedef PPL::Checked_Number<float, PPL::WRD_Extended_Number_Policy> NF;
     typedef PPL::Checked_Number<int8_t, PPL::WRD_Extended_Number_Policy> N8; typedef PPL::Checked_Number<int16_t, PPL::WRD_Extended_Number_Policy> N16;
@@ -256,35 +255,31 @@ int main(int argc, char** argv) {
     run_class(or_matrix_adapter<NF>("OR_Matrix<float>"), depth + 1);
     run_class(or_matrix_adapter<N16>("OR_Matrix<int16_t>"), depth + 1);
   }
-#elif VF_GROUP == 10
+#elif VF_GROUP == 9      // intervals and boxes over non-rational intervals
   run_class(interval_adapter<PPL::Rational_Interval>("Rational_Interval"), depth);
   run_class(interval_adapter<PPL::Interval<double, PPL::Floating_Point_Box_Interval_Info> >("Interval<double>"), depth);
   run_class(interval_adapter<PPL::Interval<float, PPL::Floating_Point_Box_Interval_Info> >("Interval<float>"), depth);
   run_class(interval_adapter<PPL::Interval<mpz_class, PPL::Z_Box_Interval_Info> >("Interval<mpz_class>"), depth);
   run_class(interval_adapter<PPL::Interval<int8_t, PPL::Native_Integer_Box_Interval_Info> >("Interval<int8_t>"), depth);
-#elif VF_GROUP == 11
   run_class(xbox_adapter<PPL::Double_Box>("Double_Box"), depth);
   run_class(xbox_adapter<PPL::Float_Box>("Float_Box"), depth);
   run_class(xbox_adapter<PPL::Int8_Box>("Int8_Box"), depth);
-#elif VF_GROUP == 12
+#elif VF_GROUP == 10     // further weakly-relational shapes
   run_class(xshape_adapter<PPL::BD_Shape<float> >("BD_Shape<float>"), depth);
   run_class(xshape_adapter<PPL::BD_Shape<int8_t> >("BD_Shape<int8_t>"), depth);
   run_class(xshape_adapter<PPL::BD_Shape<mpz_class> >("BD_Shape<mpz_class>"), depth);
-#elif VF_GROUP == 13
   run_class(xshape_adapter<PPL::Octagonal_Shape<double> >("Octagonal_Shape<double>"), depth);
   run_class(xshape_adapter<PPL::Octagonal_Shape<int16_t> >("Octagonal_Shape<int16_t>"), depth);
-#elif VF_GROUP == 14
+#elif VF_GROUP == 11     // further powersets and products
   run_class(powerset_adapter<PPL::NNC_Polyhedron>("Pointset_Powerset<NNC_Polyhedron>"), depth);
   run_class(powerset_adapter<PPL::Grid>("Pointset_Powerset<Grid>"), depth);
-#elif VF_GROUP == 15
   run_class(powerset_adapter<PPL::Rational_Box>("Pointset_Powerset<Rational_Box>"), depth);
   run_class(product_adapter<PPL::Domain_Product<PPL::NNC_Polyhedron, PPL::Grid>::Direct_Product>("Direct_Product<NNC_Polyhedron,Grid>"), depth);
-#elif VF_GROUP == 16
   run_class(product_adapter<PPL::Domain_Product<PPL::C_Polyhedron, PPL::Grid>::Congruences_Product>("Congruences_Product<C_Polyhedron,Grid>"), depth);
   run_class(product_adapter<PPL::Domain_Product<PPL::BD_Shape<mpq_class>, PPL::Grid>::Shape_Preserving_Product>("Shape_Preserving_Product<BD_Shape<mpq_class>,Grid>"), depth);
-#elif VF_GROUP == 17
-  run_class(pip_tree_adapter(), depth);
-  run_class(mip_int_adapter(), depth);
+#elif VF_GROUP == 12     // solver states with solution trees / integer variables
+  run_class(pip_tree_adapter(), depth + 1);
+  run_class(mip_int_adapter(), ARGS.thorough() ? depth + 1 : depth);
 #else
 #error "VF_GROUP not set"
 #endif
